@@ -134,8 +134,13 @@ def check(chk):
     ept = [n for n, c in cfg.calls_named("_end_player_turn")]
     dec_if = [x for x in ast.walk(run.node) if isinstance(x, ast.If) and any(
         isinstance(y, ast.Assign) and src(y.targets[0]) == "self.ending" and src(y.value) == "True" for y in x.body)]
-    chk.require(ept and dec_if, "C06: end-of-turn decision anchors vanished")
-    dec_t = [t for t in cfg.nodes if t.kind == "test" and t.owner is dec_if[0]]
+    if not ept:
+        chk.missing("DOM-13", "the game loop ends the player's turn (_end_player_turn)", run)
+    if not dec_if:
+        chk.missing("DOM-13", "the game loop decides to end the game after the last turn (self.ending = True under a test)", run)
+    if not (ept and dec_if):
+        ept = ept or [cfg.entry]
+    dec_t = [t for t in cfg.nodes if t.kind == "test" and dec_if and t.owner is dec_if[0]]
     ok = bool(dec_t) and all(cfg.dominates(ept[0].id, t.id) for t in dec_t)
     # and it reads live attributes, not values saved before the turn ended
     names = set()
@@ -241,7 +246,9 @@ def check(chk):
     clr = [n for n, c in cfg.calls_named("clear") if src(c.func.value) == "self._end_ball_event"]
     awaits = [n for n in cfg.nodes_where(lambda n: n.kind == "stmt" and n.has_await())]
     wt = [n for n in awaits if "_end_ball_event.wait()" in n.text(200)]
-    chk.require(wt, "C06: _run_ball no longer waits for the end-ball flag")
+    if not wt:
+        chk.missing("FRESH-1", "_run_ball waits for the end-ball flag", rb)
+        wt = awaits[-1:] or [cfg.exit]
     ok = bool(clr) and all(cfg.dominates(clr[0].id, a.id) for a in awaits)
     chk.ob("FRESH-1", "the end-ball flag is cleared before anything is awaited in _run_ball (an end request during ball start is kept)", ok,
            rb.where(), detail="clearing after an await wipes a request that arrived while the ball was starting: the ball never ends",
@@ -270,7 +277,8 @@ def check(chk):
     chk.analysed(f)
     cfg = f.cfg()
     pb = [(n, c) for n, c in cfg.calls_named("post_boolean")]
-    chk.require(pb, "C06: player_add_request vanished")
+    if not pb:
+        chk.missing("DOM-14", "request_player_add asks the other modules through the boolean event player_add_request", f)
     for n, c in pb:
         g = cfg.guards_at(n.id)
         ok = g.get("self.ending") is False and g.get("len(self.player_list) >= self.max_players") is False
@@ -303,6 +311,94 @@ def check(chk):
     chk.ob("DOM-14", "num_players follows the player list", ok, g_.where(), construct=g_.ident, text="num_players")
     fresh = any(isinstance(x, ast.Assign) and src(x.targets[0]) == "self.player_list" and src(x.value) in ("list()", "[]") for x in walk_local(run.node))
     chk.ob("DOM-14", "a new game starts with an empty player list", fresh, run.where(), construct=run.ident, text="fresh player list")
+
+    # ------------------------------------------------------------ RESET-1
+    # the Game mode object is reused for every game: each run must start from a clean slate, before anything is awaited
+    rcfg = run.cfg()
+    first_await = [n for n in rcfg.nodes_where(lambda n: n.has_await() if n.kind == "stmt" else False)]
+    WANT = {"self.player": ("None",), "self.player_list": ("list()", "[]"), "self.ending": ("False",), "self.slam_tilted": ("False",),
+            "self.tilted": ("False",), "self.num_players": ("0",), "self._balls_in_play": ("0",),
+            "self._end_ball_event": ("asyncio.Event()",), "self._at_least_one_player_event": ("asyncio.Event()",)}
+    for attr, vals in WANT.items():
+        st = [n for n in rcfg.nodes_where(lambda n: n.kind == "stmt" and isinstance(n.ast, ast.Assign) and
+                                          any(src(t) == attr for t in n.ast.targets))]
+        good = [n for n in st if src(n.ast.value).replace(" ", "") in vals and
+                all(rcfg.dominates(n.id, a.id) for a in first_await[:1])]
+        chk.ob("RESET-1", "a new game resets %s before anything is awaited" % attr, bool(good), run.where(),
+               detail="the game mode object is reused: stale %s from the previous game would carry over" % attr,
+               construct=run.ident, text="reset of " + attr)
+    chk.floor("RESET-1", 7)
+    # end requests: the configured end_ball / end_game events are wired to the methods that request the end
+    spec_game = [k for k in ("end_ball_event", "end_game_event")]
+    regs = [c for c in ast.walk(run.node) if isinstance(c, ast.Call) and call_attr(c) == "add_mode_event_handler" and len(c.args) >= 2]
+    for key, meth, target in (("end_ball_event", "event_end_ball", "end_ball"), ("end_game_event", "event_end_game", "end_game")):
+        hit = [c for c in regs if "['%s']" % key in src(c.args[0]).replace('"', "'")]
+        ok = bool(hit) and all(src(c.args[1]) == "self." + meth for c in hit)
+        chk.ob("BOUND-1", "the configured %s is wired to %s" % (key, meth), ok, run.where(), construct=run.ident,
+               text="%s wiring" % key)
+        hcfg = rcfg
+        for c in hit:
+            n_ = [n for n in rcfg.nodes if n.kind == "stmt" and any(x is c for x in ast.walk(n.ast))]
+            g = {k: v for k, v in (rcfg.guards_at(n_[0].id).items() if n_ else [])}
+            chk.ob("BOUND-1", "the %s handler is registered unconditionally, before the game starts" % key, not g and bool(n_) and
+                   all(rcfg.dominates(n_[0].id, a.id) for a in first_await[:1]), run.where(c), detail="guards %s" % sorted(g.items()),
+                   construct=run.ident, text="%s registration guard" % key)
+        m_ = repo.func(GM, G + "." + meth)
+        chk.analysed(m_)
+        ok = any(isinstance(c, ast.Call) and call_attr(c) == target and src(c.func.value) == "self" for c in ast.walk(m_.node))
+        chk.ob("BOUND-1", "%s requests the end (%s())" % (meth, target), ok, m_.where(), construct=m_.ident, text=meth + " body")
+    eb_m = repo.func(GM, G + ".end_ball")
+    chk.analysed(eb_m)
+    ok = any(isinstance(c, ast.Call) and call_attr(c) == "set" and src(c.func.value) == "self._end_ball_event" for c in ast.walk(eb_m.node))
+    g = eb_m.cfg()
+    sets = [n for n, c in g.calls_named("set") if src(c.func.value) == "self._end_ball_event"]
+    chk.ob("BOUND-1", "end_ball() sets the end-ball flag on every path", ok and bool(sets) and g.must_pass(g.entry.id, [n.id for n in sets]) is None,
+           eb_m.where(), construct=eb_m.ident, text="end_ball sets flag")
+
+    # ------------------------------------------------------------ PAIR-7b: the wait for the first player is always satisfiable
+    sg = repo.func(GM, G + "._start_game")
+    chk.analysed(sg)
+    sc_ = sg.cfg()
+    waits = [n for n in sc_.nodes_where(lambda n: n.kind == "stmt" and n.has_await()) if "_at_least_one_player_event.wait()" in n.text(200)]
+    if not waits:
+        chk.missing("PAIR-7", "the game start waits until a player exists", sg)
+    for wn in waits:
+        sets = [n.id for n, c in sc_.calls_named("set") if src(c.func.value) == "self._at_least_one_player_event"]
+        reqs = [n.id for n, c in sc_.calls_named("request_player_add")]
+        w = sc_.path_avoiding(sc_.entry.id, [wn.id], sets + reqs, ignore_exc=True)
+        chk.ob("PAIR-7", "before waiting for the first player the flag was set or a player add was requested", w is None, sg.where(wn.ast),
+               path=sc_.fmt_path(w, GM) if w else None, detail="otherwise the game never starts", construct=sg.ident,
+               text="wait for player without set/request")
+        for sid in sets:
+            g = sc_.guards_at(sid)
+            chk.ob("PAIR-7", "the flag is pre-set only when a player already exists", g.get("self.player_list") is True, sg.where(sc_.nodes[sid].ast),
+                   detail="guards %s" % sorted(g.items()), construct=sg.ident, text="pre-set guard")
+        for rid in reqs:
+            g = sc_.guards_at(rid)
+            chk.ob("PAIR-7", "the first player is requested exactly when none exists", g.get("self.player_list") is False,
+                   sg.where(sc_.nodes[rid].ast), detail="guards %s" % sorted(g.items()), construct=sg.ident, text="first player request guard")
+    pac = repo.func(GM, G + "._player_adding_complete")
+    chk.analysed(pac)
+    pc = pac.cfg()
+    sets = [n.id for n, c in pc.calls_named("set") if src(c.func.value) == "self._at_least_one_player_event"]
+    chk.ob("PAIR-7", "a completed player add releases the wait for the first player on every path", bool(sets) and
+           pc.must_pass(pc.entry.id, sets) is None, pac.where(), construct=pac.ident, text="player added sets flag")
+    firstp = [n for n in pc.nodes_where(lambda n: n.kind == "stmt" and isinstance(n.ast, ast.Assign) and src(n.ast.targets[0]) == "self.player")]
+    ok = bool(firstp) and all(src(n.ast.value) == "player" and pc.guards_at(n.id).get("self.player") is False for n in firstp)
+    chk.ob("PAIR-7", "the first player added becomes the current player (and only the first)", ok, pac.where(), construct=pac.ident,
+           text="first player becomes current")
+    # single / multi player ball-start extras
+    sb = repo.func(GM, G + "._start_ball")
+    bc = sb.cfg()
+    for n in bc.nodes_where(lambda n: n.kind == "stmt"):
+        for c in n.calls():
+            lab = event_label(c) if call_attr(c) in ("post", "post_async", "post_queue_async") else None
+            if lab in ("single_player_ball_started", "multi_player_ball_started"):
+                g = bc.guards_at(n.id)
+                want = lab.startswith("single")
+                chk.ob("TRACE-1", "%s is posted exactly in a %s-player game" % (lab, "one" if want else "multi"),
+                       g.get("self.num_players == 1") is want or g.get("self.num_players > 1") is (not want), sb.where(c),
+                       detail="guards %s" % sorted(g.items()), construct=sb.ident, text=lab + " guard")
 
     # ------------------------------------------------------------ PAIR-7
     ok = any(isinstance(x, ast.Assign) and src(x.targets[0]) == "self.machine.game" and src(x.value) == "self" for x in walk_local(run.node))
@@ -358,6 +454,16 @@ def battery():
         M("player added on later ball", GM, "        if self.player and self.player.ball > 1:  # todo config setting\n            self.debug_log(\"Current ball is after Ball 1. Cannot add player.\")\n            return False\n", "", "DOM-14"),
         M("veto ignored", GM, "        if ev_result is False:\n            self.debug_log(\"Request to add player has been denied.\")\n            return False\n", "", "DOM-14"),
         M("machine.game kept after stop", GM, "        self.machine.game = None", "        pass", "PAIR-7", nth=1),
+        M("balls in play carried over to the next game", GM, "        self._balls_in_play = 0\n        self._stopping_modes = []", "        self._stopping_modes = []", "RESET-1"),
+        M("ending flag carried over", GM, "        self.ending = False\n        self.num_players = 0", "        self.num_players = 0", "RESET-1"),
+        M("tilt flag reset after the game started", GM, "        self.slam_tilted = False\n        self.tilted = False\n", "        self.tilted = False\n", "RESET-1", nth=1, also=[(GM, "        await self._start_game()\n\n        # Game loop", "        await self._start_game()\n        self.slam_tilted = False\n\n        # Game loop")]),
+        M("end_ball_event not wired", GM, "        self.add_mode_event_handler(self.machine.config['game']['end_ball_event'], self.event_end_ball)\n", "", "BOUND-1"),
+        M("end_game_event wired to end_ball", GM, "self.machine.config['game']['end_game_event'], self.event_end_game)", "self.machine.config['game']['end_game_event'], self.event_end_ball)", "BOUND-1"),
+        M("event_end_ball does nothing", GM, "        del kwargs\n        self.end_ball()", "        del kwargs", "BOUND-1"),
+        M("pre-existing players: flag cleared instead of set", GM, "        if self.player_list:\n            self._at_least_one_player_event.set()", "        if self.player_list:\n            self._at_least_one_player_event.clear()", "PAIR-7"),
+        M("added player does not release the start", GM, "        # At least one player has been added to the current game, set event\n        self._at_least_one_player_event.set()\n", "", "PAIR-7"),
+        M("single/multi ball-start events swapped", GM, "        if self.num_players == 1:\n            await self.machine.events.post_async('single_player_ball_started')", "        if self.num_players != 1:\n            await self.machine.events.post_async('single_player_ball_started')", "TRACE-1"),
+        M("player add request is a plain event", GM, "self.machine.events.post_boolean('player_add_request',", "self.machine.events.post('player_add_request',", "DOM-14"),
         # twins
         M("twin: end decision via helper locals after turn end", GM, "            await self._end_player_turn()\n\n            if self.slam_tilted or self.player.ball >= self.balls_per_game and self.player.number == self.num_players:", "            await self._end_player_turn()\n\n            if self.slam_tilted or (self.player.ball >= self.balls_per_game and self.player.number == self.num_players):", None),
         M("twin: debug log added", GM, "        self.debug_log(\"Game started\")", "        self.debug_log(\"Game started!\")", None),
